@@ -128,6 +128,27 @@ example : ('_' ∉ "team-a".toList) ∧ keyPairId ("team-a".toList, "tls".toList
 theorem certbundle_id_injective (a b : Name × Name) (ha : '_' ∉ a.1) (hb : '_' ∉ b.1)
     (h : certBundleId a = certBundleId b) : a = b := certBundleId_inj ha hb h
 
+/-- `keypair_file_injective`: Secret NAMES are arbitrary (dots are legal: `example.com-tls`, `edge.pem`); two different
+Secrets of admissible namespaces never share a key-pair file, and two different ConfigMaps never share a bundle file. -/
+theorem keypair_file_injective (a b : Name × Name) (ha : '_' ∉ a.1) (hb : '_' ∉ b.1) :
+    (pemFileName (keyPairId a) = pemFileName (keyPairId b) → a = b) ∧
+    (bundleFileName (certBundleId a) = bundleFileName (certBundleId b) → a = b) := by
+  refine ⟨keypair_id_injective a b ha hb, ?_⟩
+  intro h
+  unfold bundleFileName at h
+  have h' := List.append_cancel_left (List.append_cancel_right h)
+  exact certBundleId_inj ha hb (by simpa using h')
+
+/-- non-vacuity on dotted names, and the regression detector: a file-name function that trims the id's "extension"
+(everything after the last dot) sends `example.com-tls` and `example.org-tls` to ONE file (seeded change C16-r5m1) -/
+theorem keypair_file_trimmed_ext_false :
+    pemFileName (keyPairId ("default".toList, "example.com-tls".toList)) ≠
+      pemFileName (keyPairId ("default".toList, "example.org-tls".toList)) ∧
+    pemFileNameTrimExt (keyPairId ("default".toList, "example.com-tls".toList)) =
+      pemFileNameTrimExt (keyPairId ("default".toList, "example.org-tls".toList)) ∧
+    pemFileNameTrimExt (keyPairId ("default".toList, "edge.pem".toList)) = "/etc/nginx/secrets/ssl_keypair_default_edge.pem".toList := by
+  decide +kernel
+
 /-- The key pair file holds the certificate bytes, one newline, the key bytes — both recoverable. -/
 theorem pem_bytes (cert key : Bytes) :
     pem cert key = cert ++ ['\n'] ++ key ∧ (pem cert key).take cert.length = cert ∧
